@@ -109,12 +109,14 @@ def check_vector(ctx, rng, st, flags):
     nfit = int(fitted.sum())
     _, _, w0 = O.transform(flags, flux, err)
     kk = st.k[:n]
+    cond_ = 1.0
     if mode == '2d':
         nontrivial = False
         if nfit >= 2:
             wk = np.sum(w0 * kk) / np.sum(w0)
             cond = np.sum(w0 * (kk - wk) ** 2) / np.sum(w0 * kk ** 2)
             nontrivial = bool(np.isfinite(cond) and cond >= 1e-8)
+            cond_ = float(cond) if nontrivial else 1.0
     else:
         nontrivial = nfit >= 1 and bool(np.any(np.abs(kk[fitted]) > 1e-3))
     wit = {'mode': mode, 'flags': flags, 'flux': flux, 'error': err, 'band_wav': st.wav[:n], 'k': st.k[:n]}
@@ -125,7 +127,10 @@ def check_vector(ctx, rng, st, flags):
     try:
         base = fit(flags, flux, err)
     except Exception as exc:
-        ctx.violation('base:fit-raised', 'Fitter.fit raised: %r' % (exc,), wit)
+        if nontrivial:
+            ctx.violation('base:fit-raised', 'Fitter.fit raised: %r' % (exc,), wit)
+        else:      # a singular regression (too few fitted points) is outside C01/C02's quantifier: refusing it is not judged
+            ctx.event('singular-vector-refused')
         return
     ctx.event('fit:base')
     if int(base.source.n_data) != nfit:
@@ -190,7 +195,8 @@ def check_vector(ctx, rng, st, flags):
                 sn = by_name(sub)
                 for name, (a, s, c, mf) in bn.items():
                     a2, s2, c2, mf2 = sn[name]
-                    if not (O.close(a, a2, 1e-9, 1e-9) and O.close(s, s2, 1e-9, 1e-9) and O.close(c, c2, 1e-9, 1e-12)):
+                    pt = 1e-9 / cond_           # parameters: rounding amplified by the conditioning of the regression (as in C01)
+                    if not (O.close(a, a2, pt, pt) and O.close(s, s2, pt, pt) and O.close(c, c2, 1e-9, 1e-12 + 1e-10 * float(np.sum(w0)))):
                         ctx.violation('ignored-slot-not-equivalent-to-removal',
                                       'fit with a band flagged 0/9 differs from the fit without that band',
                                       dict(wit, removed=j, model=name, with_band=(a, s, c), without=(a2, s2, c2)))
